@@ -3,6 +3,7 @@ middlewares) and the per-configuration drivers that run the *real*
 ``process_graphql_query`` on the simulated substrates.
 """
 import zlib
+import concurrent.futures
 import asyncio
 import collections
 import inspect
@@ -113,11 +114,16 @@ class BoomExecution(Boom, _exc.ExecutionError):
     operation-selection failures."""
 
 
+class BoomCancelled(Boom, concurrent.futures.CancelledError):
+    """What a resolver lets escape when the future it waited on was
+    cancelled."""
+
+
 # unexpected exceptions come in the classes that library code tends to catch
 # for its own control flow
 BOOM_CLASSES = (Boom, BoomIndex, BoomKey, BoomValue, BoomType, BoomAttribute,
                 BoomLookup, BoomLocated, BoomEnumValue, BoomCoercion,
-                BoomValidation, BoomExecution)
+                BoomValidation, BoomExecution, BoomCancelled)
 
 
 class DeniedError(ResolverError):
@@ -414,15 +420,18 @@ class Bundle:
             ctx.count("shared_resolver_function")
             return _finish(tname, fname, root, ctx, kwargs, tok)
 
-        def type_default(root, ctx, info, **kwargs):
-            tname = info.parent_type.name
-            fname = info.field_definition.name
-            if behaviours.get((tname, fname)) != "tdefault":
-                # a field meant for the library's default resolver
-                return _lib_default_resolver(root, ctx, info, **kwargs)
-            tok = _start(tname, fname, root, ctx, info)
-            ctx.count("type_default_resolver")
-            return _finish(tname, fname, root, ctx, kwargs, tok)
+        def make_type_default(tname):
+            # one function per type, which knows its own type (it does not
+            # ask info): handed a field of another type it answers wrongly
+            def type_default(root, ctx, info, **kwargs):
+                fname = info.field_definition.name
+                if behaviours.get((tname, fname)) != "tdefault":
+                    # a field meant for the library's default resolver
+                    return _lib_default_resolver(root, ctx, info, **kwargs)
+                tok = _start(tname, fname, root, ctx, info)
+                ctx.count("type_default_resolver")
+                return _finish(tname, fname, root, ctx, kwargs, tok)
+            return type_default
 
         self.shared = shared
         for tname, tdef in spec.objects.items():
@@ -440,7 +449,28 @@ class Bundle:
                     continue
                 self.tables[(tname, f)] = make_resolvers(spec, tname, f)
             if has_tdefault:
-                self.schema.register_default_resolver(tname, type_default)
+                self.schema.register_default_resolver(
+                    tname, make_type_default(tname))
+        if spec.share_fields:
+            # code-first style: ONE Field object listed by several object
+            # types (fields without a resolver of their own, identical in
+            # every respect)
+            first = {}
+            for tname in sorted(spec.objects):
+                t = self.schema.types[tname]
+                fields = list(t.fields)
+                for i, f in enumerate(fields):
+                    if behaviours[(tname, f.name)] not in ("tdefault",
+                                                           "default"):
+                        continue
+                    if any(k[0] == tname and k[1] == f.name
+                           for k in spec.arg_overrides):
+                        continue
+                    if f.name in first:
+                        fields[i] = first[f.name]
+                    else:
+                        first[f.name] = f
+                t.fields = fields
         self.mode = None
         for aname, how in spec.resolve_type.items():
             if how == "attr":
